@@ -29,6 +29,9 @@ Request == /\ E.ev = "request"
            /\ totX' = IF E.ends THEN totX + 1 ELSE totX
            /\ state' = [state EXCEPT ![E.c] = IF E.ends THEN "idle" ELSE "active"]
            /\ UNCHANGED <<sc, seen, conn, srvLive, lastTotals>>
+\* a request the pooler refused before any server was involved: the client is idle, nothing is counted
+Refused == /\ E.ev = "refused" /\ state' = [state EXCEPT ![E.c] = "idle"]
+           /\ UNCHANGED <<sc, seen, conn, q, x, srvLive, totX, totQ, lastTotals>>
 Leave == /\ E.ev = "leave" /\ conn' = conn \ {E.c} /\ state' = [state EXCEPT ![E.c] = "none"]
          /\ UNCHANGED <<sc, seen, q, x, srvLive, totX, totQ, lastTotals>>
 Servers == /\ E.ev = "servers" /\ srvLive' = E.live
@@ -77,7 +80,7 @@ Sample ==
   /\ lastTotals' = E.totals
   /\ UNCHANGED <<sc, conn, state, q, x, srvLive, totX, totQ>>
 
-Step == /\ l <= Len(Rec) /\ l' = l + 1 /\ (Reset \/ Connect \/ Request \/ Leave \/ Servers \/ Sample)
+Step == /\ l <= Len(Rec) /\ l' = l + 1 /\ (Reset \/ Connect \/ Request \/ Refused \/ Leave \/ Servers \/ Sample)
 TSpec == TInit /\ [][Step]_tv
 Accepted == /\ PrintT(<<"MATCHED", ToString(TLCGet("stats").diameter - 1)>>)
             /\ TLCGet("stats").diameter - 1 = Len(Rec)
